@@ -495,6 +495,8 @@ macro_rules! lib_impl {
                         if pre & 2 != 0 {
                             let mut rng = TestRng::replay(&[7u8; 32]);
                             let _ = key.try_sign_with_rng(&mut rng, b"used before drop", &[]);
+                            let mut rng = TestRng::replay(&[9u8; 32]);
+                            let _ = key.try_hash_sign_with_rng(&mut rng, b"used before drop", &[5], &Ph::SHAKE128);
                         }
                         if pre & 4 != 0 {
                             let _ = key.clone().into_bytes();
